@@ -171,7 +171,6 @@ func c11Scripts() []c11Script {
 	}
 }
 
-
 // twoWakeUps: the stream is blocked by flow control (1 message, d1 outstanding,
 // m2 queued); a publish and an external Acknowledge of d1 land in quick
 // succession.  Whatever the interleaving of the two commits with the streamer's
